@@ -906,6 +906,18 @@ func (e *Engine) VerifyFunc(fn *ssa.Function) (vc *VC) {
 			st.ghost[g.Name] = TV{T: init, S: s, Ty: ty}
 		}
 	}
+	if fc != nil && fc.Kind == "func" && fc.HasModifies && fn.Blocks != nil {
+		// frame: the declared modifies clause is what callers rely on
+		okF, why := e.checkDeclaredFrame(fn, fc)
+		goal := "true"
+		if !okF {
+			goal = "false"
+		}
+		name := funcDisplayName(fn) + "/frame/modifies " + strings.Join(fc.Modifies, ", ")
+		vc.obls = append(vc.obls, &Obl{Name: name, Kind: "frame", Guard: "true", Goal: goal, Func: funcDisplayName(fn), Out: why,
+			Clause: &Clause{Kind: "modifies", Text: strings.Join(fc.Modifies, ", "), File: fc.File, Line: fc.Line}})
+		vc.note("frame of " + fn.String() + " checked syntactically against its modifies clause (by heap component)")
+	}
 	if fc != nil && fc.Kind == "func" && fc.Pure && fn.Blocks != nil {
 		if fc.AssumePure {
 			vc.note("assumed pure (not checked): " + fn.String())
